@@ -313,9 +313,9 @@ theorem rMap_wMap (p : Proto) (k v : TType) (n : Nat) (hk : isReal k = true) (hv
 
 /-! field headers -/
 
-theorem rField_wField_binary (s : Bool) (t : TType) (id : Int) (ht : isReal t = true ∨ t = .stop)
+theorem rField_wField_binary (s : Bool) (t : TType) (id : Int) (dl : Bool) (ht : isReal t = true ∨ t = .stop)
     (hid : -2 ^ 15 ≤ id ∧ id < 2 ^ 15) (rest : Bytes) :
-    rField (.binary s) (wField (.binary s) t id ++ rest) = .ok ({ t := t, id := id, delta := false }, rest) := by
+    rField (.binary s) (wField (.binary s) t id dl ++ rest) = .ok ({ t := t, id := id, delta := false }, rest) := by
   have hc : t.code ≤ 12 ∧ TType.ofCode t.code = t := by
     rcases ht with ht | rfl
     · exact ⟨(code_range t ht).2, ofCode_code t ht⟩
@@ -330,19 +330,20 @@ theorem rField_wField_binary (s : Bool) (t : TType) (id : Int) (ht : isReal t = 
   have e2 : twos (c : Int) 8 = c := by unfold twos; simp only [Int.reducePow]; omega
   simp only [dontExpectEOF_ok, e1, e2, hof]
 
-theorem rField_wField_compact_stop (id : Int) (rest : Bytes) :
-    rField .compact (wField .compact .stop id ++ rest) = .ok ({ t := .stop, id := 0, delta := false }, rest) := by
+theorem rField_wField_compact_stop (id : Int) (dl : Bool) (rest : Bytes) :
+    rField .compact (wField .compact .stop id dl ++ rest) = .ok ({ t := .stop, id := 0, delta := false }, rest) := by
   simp [rField, wField, rByte, Res.bind, Gen.c_thrift_STOP]
 
 /-- short form: the id is returned as a DELTA (the reader adds the previous field id) -/
 theorem rField_wField_compact_short (t : TType) (id : Int) (ht : isReal t = true)
     (hid : 1 ≤ id ∧ id ≤ 15) (rest : Bytes) :
-    rField .compact (wField .compact t id ++ rest) = .ok ({ t := t, id := id, delta := true }, rest) := by
+    rField .compact (wField .compact t id true ++ rest) = .ok ({ t := t, id := id, delta := true }, rest) := by
   obtain ⟨hc1, hc2⟩ := code_range t ht
   have hof := ofCode_code t ht
   have hns : (t == TType.stop) = false := by cases t <;> simp [isReal] at ht ⊢
-  simp only [rField, wField, hns, Bool.false_eq_true, if_false, hid.2, if_true, List.cons_append, List.nil_append,
-    rByte, Res.bind, Gen.c_thrift_STOP]
+  have hpos : 0 < id := by omega
+  simp only [rField, wField, hns, Bool.false_eq_true, if_false, hid.2, hpos, decide_true, Bool.and_self, if_true,
+    List.cons_append, List.nil_append, rByte, Res.bind, Gen.c_thrift_STOP]
   generalize t.code = c at *
   have hm : twos id 16 = id.toNat := by unfold twos; simp only [Int.reducePow]; omega
   have hlt : id.toNat ≤ 15 ∧ 1 ≤ id.toNat := by omega
@@ -357,32 +358,42 @@ theorem rField_wField_compact_short (t : TType) (id : Int) (ht : isReal t = true
   have e4 : ((d * 16 + c : Nat) : Int) / 16 = (d : Int) := by omega
   simp only [e0, e1, e2, e3, e4, Bool.false_eq_true, if_false, if_true, hof, hid']
 
-/-- long form -/
-theorem rField_wField_compact_long (t : TType) (id : Int) (ht : isReal t = true)
-    (hid : 15 < id ∧ id < 2 ^ 15) (rest : Bytes) :
-    rField .compact (wField .compact t id ++ rest) = .ok ({ t := t, id := id, delta := false }, rest) := by
+/-- long form: whenever the writer does not choose the short form (no delta, or a delta outside 1..15), the ABSOLUTE id
+is read back -/
+theorem rField_wField_compact_long_gen (t : TType) (id : Int) (dl : Bool) (ht : isReal t = true)
+    (hsel : (dl && decide (0 < id) && decide (id ≤ 15)) = false)
+    (hid : -2 ^ 15 ≤ id ∧ id < 2 ^ 15) (rest : Bytes) :
+    rField .compact (wField .compact t id dl ++ rest) = .ok ({ t := t, id := id, delta := false }, rest) := by
   obtain ⟨hc1, hc2⟩ := code_range t ht
   have hof := ofCode_code t ht
   have hns : (t == TType.stop) = false := by cases t <;> simp [isReal] at ht ⊢
-  have hid15 : ¬ id ≤ 15 := by omega
-  simp only [rField, wField, hns, Bool.false_eq_true, if_false, hid15, List.cons_append, List.nil_append,
+  simp only [rField, wField, hns, Bool.false_eq_true, if_false, hsel, List.cons_append, List.nil_append,
     rByte, Res.bind, Gen.c_thrift_STOP]
   generalize t.code = c at *
-  have := rI16_wI16 .compact id ⟨by omega, hid.2⟩ rest
+  have := rI16_wI16 .compact id hid rest
   simp only [wI16] at this
   rw [toNat_ofNat_lt _ (by omega), this]
   have e0 : (c == 0) = false := by simp; omega
   have e1 : (c / 16 != 0) = false := by simp; omega
   simp only [e0, e1, Bool.false_eq_true, if_false, dontExpectEOF_ok, hof]
 
+/-- long form -/
+theorem rField_wField_compact_long (t : TType) (id : Int) (dl : Bool) (ht : isReal t = true)
+    (hid : 15 < id ∧ id < 2 ^ 15) (rest : Bytes) :
+    rField .compact (wField .compact t id dl ++ rest) = .ok ({ t := t, id := id, delta := false }, rest) := by
+  have hid15 : ¬ id ≤ 15 := by omega
+  exact rField_wField_compact_long_gen t id dl ht (by simp [hid15]) ⟨by omega, hid.2⟩ rest
 
-/-! ### what does NOT hold: compact short form with id ≤ 0 (compactWriter.WriteField tests `ID <= 15` only) -/
+/-! ### repaired: compactWriter.WriteField uses the short form only for `Delta && 0 < ID ≤ 15` -/
 
-/-- id 0 (a zero delta, e.g. a repeated field id): the header byte is the bare type code, the reader takes it for the
-long form and consumes the following byte(s) as the id -/
-example : rField .compact (wField .compact .i32 0 ++ [2, 9]) = .ok ({ t := .i32, id := 1, delta := false }, [9]) := rfl
+/-- an absolute id ≤ 15 (Delta = false) is written in the long form and read back as itself -/
+example : rField .compact (wField .compact .i32 7 false ++ [9]) = .ok ({ t := .i32, id := 7, delta := false }, [9]) :=
+  rField_wField_compact_long_gen .i32 7 false rfl rfl (by decide) [9]
 
-/-- negative id -1: written in the short form as 0xF5, read back as delta 15 -/
-example : rField .compact (wField .compact .i32 (-1) ++ [2, 9]) = .ok ({ t := .i32, id := 15, delta := true }, [2, 9]) := rfl
+/-- id 0 and negative ids go to the long form (zig-zag id), whatever `Delta` says -/
+example : rField .compact (wField .compact .i32 0 true ++ [9]) = .ok ({ t := .i32, id := 0, delta := false }, [9]) :=
+  rField_wField_compact_long_gen .i32 0 true rfl rfl (by decide) [9]
+example : rField .compact (wField .compact .i32 (-1) true ++ [9]) = .ok ({ t := .i32, id := -1, delta := false }, [9]) :=
+  rField_wField_compact_long_gen .i32 (-1) true rfl rfl (by decide) [9]
 
 end Enc.Lemmas.ThriftPrim
